@@ -50,7 +50,7 @@ theorem mask_bit_iff (o : Obj) (pos a : Nat) (hin : pos ≤ a / 8 ∧ a / 8 < po
     omega
 
 /-- used bits after a step: what was used before, or the object's own bits -/
-theorem encStep_used_iff (o : Obj) (v : Int) (s : EncState) (a : Nat) :
+theorem encStep_used_iff (o : Obj) (v : IVal) (s : EncState) (a : Nat) :
     getBit (encStep o v s).used a = true ↔ getBit s.used a = true ∨ o.claims (o.pos s.origin s.cursorByte) a := by
   have hml : (ord o.hl (toBytesBE o.k o.mask)).length = o.k := by rw [ord_length, toBytesBE_length]
   have hused : (encStep o v s).used = placeUsed (s.used ++ List.replicate ((padTo s.msg (o.pos s.origin s.cursorByte + o.k)).length - s.msg.length) 0)
@@ -92,7 +92,7 @@ theorem overlapCount_eq_zero_of (us ms : Bytes) (h : ∀ i, i < us.length → i 
         simpa using this)
 
 /-- no used bit is claimed by the object ⇒ its emplacement raises no overlap warning -/
-theorem encStep_nowarn (o : Obj) (v : Int) (s : EncState)
+theorem encStep_nowarn (o : Obj) (v : IVal) (s : EncState)
     (h : ∀ a, o.claims (o.pos s.origin s.cursorByte) a → getBit s.used a = false) :
     (encStep o v s).warn = s.warn := by
   have hml : (ord o.hl (toBytesBE o.k o.mask)).length = o.k := by rw [ord_length, toBytesBE_length]
@@ -152,7 +152,7 @@ def Free (s : EncState) (os : List Obj) : Prop :=
 
 /-- **Overlap warning ⇐ static overlap** (contrapositive): a description whose objects are pairwise disjoint
     encodes every value assignment without an overlap warning -/
-theorem encAll_nowarn (ovs : List (Obj × Int)) :
+theorem encAll_nowarn (ovs : List (Obj × IVal)) :
     ∀ (s : EncState), PairDisj s.origin (ovs.map (·.1)) s.cursorByte → Free s (ovs.map (·.1)) →
       (encAll ovs s).warn = s.warn := by
   induction ovs with
@@ -186,10 +186,10 @@ open OdxVerif.Bits OdxVerif.OdxM
 def Obj.rawAt (o : Obj) (msg : Bytes) (origin c : Nat) : Nat :=
   readNum msg (o.pos origin c) o.k o.hl / 2 ^ o.bp % 2 ^ o.bl
 
-/-- the integers the decoder returns for a flat description -/
-def decVals (origin : Nat) (msg : Bytes) : List Obj → Nat → List Int
+/-- the values the decoder returns for a flat description -/
+def decVals (origin : Nat) (msg : Bytes) : List Obj → Nat → List IVal
   | [], _ => []
-  | o :: rest, c => int32OfRaw o.enc o.bl (o.rawAt msg origin c) :: decVals origin msg rest (o.pos origin c + o.k)
+  | o :: rest, c => o.ofRaw (o.rawAt msg origin c) :: decVals origin msg rest (o.pos origin c + o.k)
 
 theorem decVals_length (origin : Nat) (msg : Bytes) (os : List Obj) (c : Nat) : (decVals origin msg os c).length = os.length := by
   induction os generalizing c with
@@ -197,18 +197,18 @@ theorem decVals_length (origin : Nat) (msg : Bytes) (os : List Obj) (c : Nat) : 
   | cons o rest ih => simp [decVals, ih]
 
 theorem decAll_vals (os : List Obj) (d : DecState) :
-    (decAll os d).1 = (decVals d.origin d.msg os d.cursorByte).map IVal.int := by
+    (decAll os d).1 = decVals d.origin d.msg os d.cursorByte := by
   induction os generalizing d with
   | nil => rfl
   | cons o rest ih =>
-    simp only [decAll, decVals, List.map_cons]
+    simp only [decAll, decVals]
     rw [ih]
     rfl
 
 /-- every raw pattern read is canonical (no negative zero) -/
 def Canon (origin : Nat) (msg : Bytes) : List Obj → Nat → Prop
   | [], _ => True
-  | o :: rest, c => canonRaw o.enc o.bl (o.rawAt msg origin c) ∧ Canon origin msg rest (o.pos origin c + o.k)
+  | o :: rest, c => o.canon (o.rawAt msg origin c) ∧ Canon origin msg rest (o.pos origin c + o.k)
 
 /-- every object lies inside the message -/
 def Fits (origin : Nat) (msg : Bytes) : List Obj → Nat → Prop
@@ -236,7 +236,7 @@ theorem eq_of_getBit (a b : Bytes) (ha : AllBytes a) (hb : AllBytes b) (hlen : a
     rw [Nat.testBit_lt_two_pow l1, Nat.testBit_lt_two_pow l2]
 
 /-- length of the encoder's message: the old length or the byte behind the furthest object -/
-theorem encAll_length_le (ovs : List (Obj × Int)) :
+theorem encAll_length_le (ovs : List (Obj × IVal)) :
     ∀ (s : EncState) (n : Nat), s.msg.length ≤ n → Fits s.origin (List.replicate n 0) (ovs.map (·.1)) s.cursorByte →
       (encAll ovs s).msg.length ≤ n := by
   induction ovs with
@@ -261,9 +261,9 @@ namespace OdxVerif.Codec
 open OdxVerif.Bits OdxVerif.OdxM
 
 /-- the description paired with the values decoded from `msg` -/
-def reenc (origin : Nat) (msg : Bytes) : List Obj → Nat → List (Obj × Int)
+def reenc (origin : Nat) (msg : Bytes) : List Obj → Nat → List (Obj × IVal)
   | [], _ => []
-  | o :: rest, c => (o, int32OfRaw o.enc o.bl (o.rawAt msg origin c)) :: reenc origin msg rest (o.pos origin c + o.k)
+  | o :: rest, c => (o, o.ofRaw (o.rawAt msg origin c)) :: reenc origin msg rest (o.pos origin c + o.k)
 
 theorem reenc_fst (origin : Nat) (msg : Bytes) (os : List Obj) (c : Nat) : (reenc origin msg os c).map (·.1) = os := by
   induction os generalizing c with
@@ -310,15 +310,15 @@ theorem reenc_agree (pdu : Bytes) (hall : AllBytes pdu) (os : List Obj) :
     subst hc
     simp only [Fits] at hfit
     simp only [Canon] at hcanon
-    obtain ⟨hk, hbl, _⟩ := hok o (List.mem_cons_self ..)
+    have ho := hok o (List.mem_cons_self ..)
     simp only [reenc, encAll] at hw ⊢
-    have h1 := encStep_warn_ge o (int32OfRaw o.enc o.bl (o.rawAt pdu s.origin s.cursorByte)) s
+    have h1 := encStep_warn_ge o (o.ofRaw (o.rawAt pdu s.origin s.cursorByte)) s
     have h2 := encAll_warn_ge (reenc s.origin pdu rest (o.pos s.origin s.cursorByte + o.k))
-      (encStep o (int32OfRaw o.enc o.bl (o.rawAt pdu s.origin s.cursorByte)) s)
+      (encStep o (o.ofRaw (o.rawAt pdu s.origin s.cursorByte)) s)
     have hrest : (encAll (reenc s.origin pdu rest (o.pos s.origin s.cursorByte + o.k))
-        (encStep o (int32OfRaw o.enc o.bl (o.rawAt pdu s.origin s.cursorByte)) s)).warn
-        = (encStep o (int32OfRaw o.enc o.bl (o.rawAt pdu s.origin s.cursorByte)) s).warn := by omega
-    have hraw := (int32_raw_roundtrip o.enc hk o.bl hbl _ hcanon.1).2
+        (encStep o (o.ofRaw (o.rawAt pdu s.origin s.cursorByte)) s)).warn
+        = (encStep o (o.ofRaw (o.rawAt pdu s.origin s.cursorByte)) s).warn := by omega
+    have hraw := (o.canon_spec ho _ hcanon.1).2
     refine ⟨?_, ?_, ?_⟩
     · intro j hj
       rw [encAll_frame _ _ hrest _ (encStep_own_used o _ s j hj), encStep_own_bits o _ s j hj, hraw]
@@ -329,7 +329,7 @@ theorem reenc_agree (pdu : Bytes) (hall : AllBytes pdu) (os : List Obj) :
       simp [hj, hj8]
     · refine Nat.le_trans ?_ (encAll_length_ge _ _)
       rw [encStep_length]; omega
-    · have := ih (o.pos s.origin s.cursorByte + o.k) (encStep o (int32OfRaw o.enc o.bl (o.rawAt pdu s.origin s.cursorByte)) s)
+    · have := ih (o.pos s.origin s.cursorByte + o.k) (encStep o (o.ofRaw (o.rawAt pdu s.origin s.cursorByte)) s)
         (fun x hx => hok x (List.mem_cons_of_mem _ hx)) (encStep_allBytes o _ s hsall) (by rw [encStep_cursor])
         (by rw [encStep_origin]; exact hfit.2) (by rw [encStep_origin]; exact hcanon.2)
         (by rw [encStep_origin]; exact hrest)
